@@ -452,6 +452,10 @@ def animator_corpus(tier, seed):
     C.append({"defaults": {"state": "St::A", "values": ("inline", [("x", "1.5")])},
               "arms": [arm(["St::A"], [tl(dur("1s"), k_to)]), arm(["St::B"], [tl(dur("2s"))]),
                        arm(["St::C", "St::D"], [tl(dur("for 3s"), rep("2x")), tl(dur("1s"), delay("after 500ms"))])]})
+    # keyframes sharing a position inside an arm keep their order (a step)
+    C.append({"defaults": {"state": "St::A", "values": ("inline", [("x", "1.5")])},
+              "arms": [arm(["St::A"], [tl(dur("2s"), k_from, kf(T, "50%", [("x", "3.5")]), kf(T, "50%", [("x", "7.5"), ("n", "40")]), k_to)]),
+                       arm(["St::B"], [tl(dur("1s"), k_to, kf(T, "100%", [("x", "2.5")]))])]})
     # a state listed twice in one arm; a single-state arm overridden by a later shared arm
     C.append({"defaults": None,
               "arms": [arm(["St::A", "St::A", "St::B"], [tl(dur("1s"), k_to)]), arm(["St::C"], [tl(dur("2s"), k_to2)]),
